@@ -141,9 +141,27 @@ class Gen:
             regs = [r for r in ArmRegister.all_registers()]
             if k is set:
                 regs = [r for r in regs if r.num < 8]
-            n = 1 + ((j if j is not None else rng.randrange(100)) % 4)
-            start = (j if j is not None else rng.randrange(100)) % len(regs)
-            chosen = [regs[(start + 2 * i) % len(regs)] for i in range(n)]
+            # register lists: consecutive runs of every length (a printer may fold them into ranges), runs that
+            # reach the named registers at the top of the file (sp/lr/pc), strided lists and arbitrary subsets
+            nr = len(regs)
+            if j is None:
+                shape = rng.randrange(4)
+                if shape == 0:
+                    return k(rng.sample(regs, rng.randint(1, min(nr, 7))))
+                n = rng.randint(1, min(nr, 6))
+                start = rng.randrange(nr) if shape != 1 else nr - n - rng.randrange(min(3, nr - n + 1))
+                stride = 2 if shape == 3 else 1
+                return k([regs[(start + stride * i) % nr] for i in range(n)])
+            shapes = []
+            for n in (3, 4, 2, 1, 5, nr):
+                for start in (nr - n, max(0, nr - n - 1), max(0, nr - n - 2), 4 % nr, 0):
+                    shapes.append((start, n, 1))
+            for n in (2, 3, 4):
+                for start in (0, 1, nr - 3):
+                    shapes.append((start, n, 2))
+            shapes.append((0, 3, 1))
+            start, n, stride = shapes[(j + pos) % len(shapes)]
+            chosen = [regs[(start + stride * i) % nr] for i in range(min(n, nr))]
             return k(chosen)
         raise NotImplementedError(str(kd))
 
